@@ -467,6 +467,15 @@ def mutate(rng, root, layout, info, klass):
             0, {'tag': 'MANIFEST', 'path': x, 'size': 0, 'sums': {}, '_auto': h1})
         rec['path'] = x
         rec['frozen'] = True
+    elif klass == 'm-ignore-missing-parent':
+        # an IGNORE for something inside a directory that does not exist here (a path
+        # of several components): never an offence, whatever else is missing
+        m = rng.choice(sorted(layout['mans']))
+        layout['mans'][m]['entries'].insert(
+            rng.randrange(len(layout['mans'][m]['entries']) + 1),
+            {'tag': 'IGNORE', 'path': rng.choice(['no-such-dir/cache', 'var/tmp/portage',
+                                                  'local/x/y'])})
+        rec['path'] = None
     elif klass == 'm-dup-ignore':
         cands = [(m, e) for m, md in layout['mans'].items()
                  for e in md['entries'] if e['tag'] == 'IGNORE']
